@@ -497,6 +497,13 @@ func (fr *Frame) store(x *ssa.Store, st *State) {
 		return
 	}
 	lv := fx.pointee(pv, elem)
+	if fr.top && fx.contract != nil && len(fx.contract.Asserts) > 0 && strings.HasPrefix(lv.Key, "F.") {
+		var ownerTy types.Type
+		if fa, ok := x.Addr.(*ssa.FieldAddr); ok {
+			ownerTy = fa.X.Type()
+		}
+		fr.storeAsserts("store:"+lv.Key, st, x.Pos(), x.Block(), SVal{V: v, Ty: elem}, SVal{V: tv(lv.Ref), Ty: ownerTy})
+	}
 	fx.frameWriteLV(st, lv, x.Pos(), fr)
 	// closures and function values stored in memory lose their static identity
 	fx.writeLV(st, lv, fx.materialize(v, elem))
